@@ -8,6 +8,10 @@ THEOREMS = [
     "C06.wm_views_agree",
     "C06.wm_views_agree_history",
     "C06.fire_all_bounded",
+    "C06.quiescent_fire_all_exact",
+    "C06.quiescent_fire_all_exact_bound",
+    "C06.quiescent_fire_all_exact_iff",
+    "C06.quiescent_fire_all_exact_no_size_hypothesis_counterexample",
 ]
 N = {"quick": 1500, "thorough": 20000}
 EXHAUSTIVE = {"quick": False, "thorough": False}
@@ -37,6 +41,8 @@ ASSUMPTIONS = [
     "`Type.field` keys of the flattened copy) is a free choice of the implementation: the model fixes one, the theorems do not depend "
     "on it, complete observations are compared only when at most one fact per type is live, the oracle is evaluated always",
     "rules are added before any fact is inserted (as GrlReteLoader users do); activations are created by propagation only",
+    "exactness clause: fact contents are maps (one binding per field, as TypedFacts is a HashMap); the number of pending activations "
+    "plus the number of rules does not exceed max_iterations = 1000 (stale activations are popped first and count as iterations)",
 ]
 
 
@@ -58,8 +64,12 @@ LEVEL_TEXT = ("Lean 4 theorems (kernel-checked, unbounded histories) about an ex
               "history, handles are fresh and strictly increasing, every firing of fire_all has a live matched fact whose current contents "
               "satisfy the rule node (after fix-C06), fire_all is bounded; tied to the Rust code by a correspondence check on deterministic "
               "histories and by evaluating the Spec oracle on the implementation's observations of every history. The exactness clause "
-              "(quiescent fire_all fires exactly the satisfied no-loop rules) is stated in Lean (quiescent_fire_all_exact_full) and checked by "
-              "the oracle on every applicable run, but not proved.")
+              "is proved too (quiescent_fire_all_exact): for quiet no-loop rule sets, after ANY history (earlier fire_all calls and resets "
+              "included) followed by calls other than fire_all that insert or update every live fact, fire_all fires every rule not yet "
+              "fired since the last reset that a live fact of its type satisfies, each once, and no other rule, provided pending activations + "
+              "rules <= 1000 (max_iterations); without that size hypothesis the clause is false (counterexample theorem). The oracle "
+              "clause exactOk is still evaluated on every applicable run.")
 LEVEL_NOTE = ("Trusted: Lean kernel + {propext, Classical.choice, Quot.sound}; hand-written model tied to the code by differential testing "
-              "only; recorder closure mimics the GRL action closure. Partial: quiescent_fire_all_exact is oracle-checked, not proved.")
+              "only; recorder closure mimics the GRL action closure. quiescent_fire_all_exact carries the explicit hypotheses: contents are maps (one "
+              "binding per field), every live fact inserted/updated since the last fire_all, pending activations + rules <= 1000.")
 DESIGN_REF = "§6 C06"
